@@ -158,6 +158,120 @@ theorem arithmetic_convex (p1 p2 al : List F) (hl : p1.length = p2.length) (ha :
       exact ⟨c1.1, c1.2, c2.1, c2.2, convex_sum _ _ _⟩
 end Arith
 
+
+/-! ## Components (functions of explicit witnesses; the theorems quantify over every legal witness) -/
+
+/-- Real- and bit-valued rate-gated mutations keep the dimension, whatever the gate did. -/
+theorem mutation_keeps_dimension {F : Type} [Add F] (mask : List Bool) (vals sol : List α)
+    (deltas xs : List F) (bits : List Bool) :
+    (gated mask vals sol).length = sol.length ∧ (resample mask vals sol).length = sol.length ∧
+    (addDeltas mask deltas xs).length = xs.length ∧ (bitFlip mask bits).length = bits.length :=
+  ⟨gated_length _ _ _, gated_length _ _ _, gated_length _ _ _, gated_length _ _ _⟩
+
+/-- A mutation rate of zero (`gen_bool(0)` never fires: every legal mask is all-false) leaves every
+solution unchanged. -/
+theorem rate_zero_is_identity {F : Type} [Add F] (rmOne : Bool) (mask : List Bool) (vals sol : List α)
+    (deltas xs : List F) (bits : List Bool) :
+    (maskLegal true rmOne mask sol.length = true → gated mask vals sol = sol) ∧
+    (maskLegal true rmOne mask xs.length = true → addDeltas mask deltas xs = xs) ∧
+    (maskLegal true rmOne mask bits.length = true → bitFlip mask bits = bits) := by
+  refine ⟨?_, ?_, ?_⟩ <;> intro h <;>
+    simp only [maskLegal, Bool.not_true, Bool.false_or, Bool.and_eq_true] at h <;>
+    exact gated_all_false _ _ _ h.1.2
+
+/-- Swap, inversion, insertion, translocation and scramble return a permutation of the solution
+for every legal witness, and never panic or err on it. -/
+theorem permutation_mutations_perm (sol : List α) :
+    (∀ k w, 2 ≤ k → k ≤ sol.length → swapLegal k sol.length w = true →
+      ∃ r, swapMutation k sol w = .ok r ∧ r.Perm sol) ∧
+    (∀ w, inversionLegal sol.length w = true → ∃ r, inversionMutation sol w = some r ∧ r.Perm sol) ∧
+    (∀ w, insertionLegal sol.length w = true → ∃ r, insertionMutation sol w = some r ∧ r.Perm sol) ∧
+    (∀ w, translocationLegal sol.length w = true → ∃ r, translocationMutation sol w = some r ∧ r.Perm sol) ∧
+    (∀ rmZero σ, scrambleLegal rmZero sol.length σ = true →
+      ∃ r, scrambleMutation sol σ = some r ∧ r.Perm sol ∧ (rmZero = true → r = sol)) :=
+  ⟨fun k w h1 h2 h => swapMutation_legal k sol w h1 h2 h, inversion_legal sol, insertion_legal sol,
+   translocation_legal sol, fun z σ h => scramble_legal z sol σ h⟩
+
+/-- Legal witnesses exist for every solution length (the quantifiers above are not vacuous). -/
+theorem permutation_witnesses_exist (n : Nat) :
+    (2 ≤ n → swapLegal 2 n [0, 1] = true) ∧
+    (inversionLegal n (if n < 2 then none else some (0, 1)) = true) ∧
+    (0 < n → insertionLegal n (0, 0) = true) ∧
+    (translocationLegal n (if n < 2 then none else some (0, 1, 0)) = true) ∧
+    (scrambleLegal false n (List.range n).reverse = true) := by
+  refine ⟨?_, ?_, ?_, ?_, ?_⟩
+  · intro h; simp [swapLegal, nodupNat, allBelow]; omega
+  · split <;> simp [inversionLegal] <;> omega
+  · intro h; simp [insertionLegal, h]
+  · split <;> simp [translocationLegal] <;> omega
+  · simp only [scrambleLegal, Bool.not_false, Bool.true_or, Bool.and_true]
+    exact List.isPerm_iff.mpr (List.reverse_perm _)
+
+/-- Offspring counts: every pair contributes both parents (no crossover), one child (insert-one) or
+two children (insert-both); an odd remainder passes through. -/
+theorem recombination_counts {β : Type} (parents : List β) (rs : List (OptPair β))
+    (h : rs.length = parents.length / 2) :
+    (frame parents rs).length =
+      2 * countNone rs + countSingle rs + 2 * countBoth rs + parents.length % 2 :=
+  frame_length parents rs h
+
+/-- What one `recombine` call contributes follows the crossover decision and `insert_both`. -/
+theorem recombine_cases {β : Type} (crossed insertBoth : Bool) (c : β × β) :
+    recombine crossed (some c) insertBoth =
+      some (if crossed then (if insertBoth then .both c.1 c.2 else .single c.1) else .none) := by
+  cases crossed <;> cases insertBoth <;> rfl
+
+section Gate
+variable {F : Type} [Field F] [LinearOrder F] [IsStrictOrderedRing F]
+
+/-- The crossover gate `u <= pc` for a uniform draw `u ∈ [0,1)`: probability one always crosses;
+probability zero never does — except on the draw `u = 0` (excluded region, see the counterexample). -/
+theorem crossover_gate_partial (u : F) (h0 : 0 ≤ u) (h1 : u < 1) :
+    crossedBy u 1 = true ∧ (0 < u → crossedBy u 0 = false) := by
+  constructor
+  · simp [crossedBy, h1.le]
+  · intro hu; simp [crossedBy, not_le.mpr hu]
+
+/-- The full statement (`pc = 0` never crosses), kept visible; it is refuted below. -/
+def crossover_gate_full : Prop := ∀ u : F, 0 ≤ u → u < 1 → crossedBy u (0 : F) = false
+
+/-- Counterexample: with crossover probability 0 the smallest draw `u = 0` still crosses
+(`<=` instead of `<`); on a pair with `insert_both = false` the population shrinks. -/
+theorem crossover_gate_pc_zero_violates :
+    crossedBy (0 : Int) 0 = true ∧
+    frame [[100, 101], [200, 201]]
+      ((recombine (crossedBy (0 : Int) 0) (multiPointCrossover [100, 101] [200, 201] [1]) false).toList)
+      = [[100, 201]] := by decide
+end Gate
+
+section DE
+variable {F : Type} [Field F]
+
+/-- `DEMutation` accepts exactly the populations whose length is a multiple of `2y+1` and returns
+one mutant per group, each of the dimension of a member of the population. -/
+theorem de_mutation_format (y : Nat) (f : F) (pop : List (List F)) :
+    (deMutation y f pop = .err ↔ pop.length % (y * 2 + 1) ≠ 0) ∧
+    (∀ r, deMutation y f pop = .ok r →
+      pop.length % (y * 2 + 1) = 0 ∧ r.length = pop.length / (y * 2 + 1) ∧
+      ∀ m ∈ r, ∃ b ∈ pop, m.length = b.length) :=
+  deMutation_format y f pop
+end DE
+
+/-- DE binomial / exponential crossover: the trial vector keeps the dimension and every position
+holds the mutant's or the base's coordinate, for every mask. -/
+theorem de_crossover_positionwise (dim : Nat) (mask : List Bool) (mutant base : List α)
+    (h1 : dim ≤ mutant.length) (h2 : dim ≤ base.length) :
+    ∃ r, deCross dim mask mutant base = some r ∧ r.length = mutant.length ∧
+      ∀ i : Nat, r[i]? = mutant[i]? ∨ r[i]? = base[i]? :=
+  deCross_positionwise dim mask mutant base h1 h2
+
+/-- The legal masks of both DE crossovers are non-empty sets of positions. -/
+example : deBinLegal false false 4 [false, true, false, true] = true := by decide
+example : deExpLegal false false 4 [true, false, false, true] = true := by decide
+example : deExpLegal true false 4 [false, false, true, false] = true := by decide
+example : deMutation 1 (2 : Int) [[1, 1], [5, 0], [2, 7], [0, 0], [1, 1], [1, 1]] = .ok [[7, -13], [0, 0]] := by decide
+example : maskLegal true false [false, false, false] 3 = true := by decide
+
 /-! Non-vacuity of the hypotheses, on concrete inputs. -/
 example : circularSwap [10, 11, 12, 13, 14] [1, 0, 4, 2] = some [11, 12, 14, 13, 10] := by decide
 example : circularSwap2 [10, 11, 12, 13, 14] [1, 0, 4, 2] = some [11, 12, 14, 13, 10] := by decide
